@@ -464,6 +464,14 @@ func metadataSys() *sys {
 			w(fmt.Sprintf("UpdateMetadata(#%d)", k), func() proto.Message { return mk(k) }, func(a proto.Message) (proto.Message, error) { return md.UpdateMetadata(a.(*traits.Metadata)) }),
 			w(fmt.Sprintf("MergeMetadata(#%d)", k), func() proto.Message { return mk(k) }, func(a proto.Message) (proto.Message, error) { return md.MergeMetadata(a.(*traits.Metadata)) }))
 	}
+	// a trait list that is not in name order (a plain update stores it as given), and a merge that names no trait:
+	// whatever the merge does to put the stored list in order, it does not do to a list someone else holds
+	unsorted := func() proto.Message {
+		return &traits.Metadata{Name: "u", Traits: []*traits.TraitMetadata{{Name: "Z"}, {Name: "M", More: map[string]string{"k": "v"}}, {Name: "A"}}}
+	}
+	s.ops = append(s.ops,
+		w("UpdateMetadata(unsorted traits Z,M,A)", unsorted, func(a proto.Message) (proto.Message, error) { return md.UpdateMetadata(a.(*traits.Metadata)) }),
+		w("MergeMetadata(no traits)", func() proto.Message { return &traits.Metadata{Name: "other"} }, func(a proto.Message) (proto.Message, error) { return md.MergeMetadata(a.(*traits.Metadata)) }))
 	s.ops = append(s.ops,
 		w("UpdateTraitMetadata(B)", func() proto.Message { return &traits.TraitMetadata{Name: "B", More: map[string]string{"z": "1"}} }, func(a proto.Message) (proto.Message, error) {
 			return md.UpdateTraitMetadata(a.(*traits.TraitMetadata))
